@@ -40,7 +40,7 @@ MAX_CALLS = 400
 
 # ------------------------------------------------------------------------------------------------
 # tie: the two parameters of the model are read off the source
-def source_config(ctx) -> tuple[bool, bool] | None:
+def source_config(ctx) -> tuple[bool, bool, bool] | None:
     src_path = common.REPO / 'autobean_refactor' / 'editor.py'
     try:
         tree = ast.parse(src_path.read_text())
@@ -100,12 +100,56 @@ def source_config(ctx) -> tuple[bool, bool] | None:
     if n_makedirs != 1 or guard == 'UNKNOWN':
         ctx.fail('tie', 'C16:tie', 'cannot tell whether os.makedirs in edit_file_recursive is guarded')
         return None
-    return (vals == {'DEFAULT'}, bool(guard))
+    esc = glob_dir_escaped(next(n for n in tree.body if isinstance(n, ast.FunctionDef) and n.name == '_get_include_paths'))
+    if esc is None:
+        ctx.fail('tie', 'C16:tie', 'cannot tell whether the directory part of the include pattern is glob-escaped '
+                                   'in _get_include_paths')
+        return None
+    return (vals == {'DEFAULT'}, bool(guard), esc)
+
+
+def glob_dir_escaped(fn: ast.FunctionDef):
+    """Is the first argument of os.path.join(...) inside the glob.glob(...) call wrapped in glob.escape?"""
+    assigned = {}
+    for node in ast.walk(fn):
+        if isinstance(node, ast.Assign) and len(node.targets) == 1 and isinstance(node.targets[0], ast.Name):
+            assigned[node.targets[0].id] = node.value
+
+    def name_of(call):
+        f = call.func
+        return f.id if isinstance(f, ast.Name) else f.attr if isinstance(f, ast.Attribute) else None
+
+    def resolve(e, depth=0):
+        while isinstance(e, ast.Name) and e.id in assigned and depth < 5:
+            e, depth = assigned[e.id], depth + 1
+        return e
+    found = None
+    for node in ast.walk(fn):
+        if isinstance(node, ast.Call) and name_of(node) in ('glob', 'iglob') and node.args:
+            pat = resolve(node.args[0])
+            if not (isinstance(pat, ast.Call) and name_of(pat) == 'join' and len(pat.args) == 2):
+                return None
+            d = resolve(pat.args[0])
+            if isinstance(d, ast.Call) and name_of(d) == 'escape' and len(d.args) == 1 \
+                    and isinstance(resolve(d.args[0]), ast.Call) and name_of(resolve(d.args[0])) == 'dirname':
+                this = True
+            elif isinstance(d, ast.Call) and name_of(d) == 'dirname':
+                this = False
+            else:
+                return None
+            if found is not None and found != this:
+                return None
+            found = this
+    return found
 
 
 # ------------------------------------------------------------------------------------------------
 # scenarios
 POOL = ['a.bean', 'b.bean', 'inc/c.bean', 'inc/d.bean', 'inc/deep/e.bean', 'other/f.bean']
+# directories whose names contain glob magic, with look-alike siblings an unescaped pattern would match
+MAGIC_POOL = ['x[ab]/g.bean', 'x[ab]/h.bean', 'xa/h.bean', 'xb/g.bean', 'led[2020]/i.bean', 'led[2020]/j.bean',
+              'st*r/k.bean', 'star/k.bean', 'q?/l.bean', 'qz/l.bean', 'inc/[x]/m.bean', 'inc/x/m.bean']
+MAGIC = set('*?[')
 # (cwd relative to the tree, root spelling; {D} = absolute path of the tree, {N} = its basename)
 SPELLINGS = [
     ('.', 'main.bean', 'bare'), ('.', './main.bean', 'bare'), ('.', 'inc/../main.bean', 'bare'),
@@ -160,7 +204,7 @@ def _seg_match(pat: list[str], segs: list[str]) -> bool:
 
 def would_match(rels: list[str], here: str, pat: str) -> bool:
     """Generator-side approximation of glob (only used to avoid writing patterns that match nothing)."""
-    full = os.path.normpath(os.path.join(here, pat))
+    full = os.path.normpath(os.path.join(glob_mod.escape(here), pat))
     if full.startswith('..'):
         return False
     return any(_seg_match(full.split('/'), r.split('/')) for r in rels)
@@ -169,7 +213,11 @@ def would_match(rels: list[str], here: str, pat: str) -> bool:
 def gen_scenario(rng, force: dict | None = None) -> dict:
     force = force or {}
     n = rng.choice([0, 1, 2, 3, 4, 5, 6])
-    rels = [MAIN] + rng.sample(POOL, n)
+    if rng.random() < 0.3:
+        k = rng.choice([1, 2, 3, 4])
+        rels = [MAIN] + rng.sample(MAGIC_POOL, k) + rng.sample(POOL, min(n, 6 - k))
+    else:
+        rels = [MAIN] + rng.sample(POOL, n)
     dirs = sorted({os.path.dirname(r) for r in rels} | {'inc', 'inc/deep'})
     # include patterns, written relative to the including file's directory
     incs: dict[str, list[str]] = {r: [] for r in rels}
@@ -204,7 +252,7 @@ def gen_scenario(rng, force: dict | None = None) -> dict:
     cwd, root, kind = rng.choice(SPELLINGS)
     scn = {'mode': 'rec' if rng.random() < 0.8 else 'single', 'files': files, 'dirs': dirs, 'incs': incs,
            'cwd': cwd, 'root': root, 'spelling': kind, 'idx': {r: i for i, r in enumerate(rels)},
-           'edits': {}, 'removes': [], 'adds': [], 'raise': None}
+           'edits': {}, 'removes': [], 'adds': [], 'rekeys': [], 'raise': None}
     scn.update(force)
     # the body: which entries are edited / removed / added, does it raise
     for r in rels:
@@ -213,6 +261,8 @@ def gen_scenario(rng, force: dict | None = None) -> dict:
             scn['edits'][r] = rng.choice(['account', 'narration', 'account', 'noop'])
         elif x < 0.45 and r != MAIN and scn['mode'] == 'rec':
             scn['removes'].append(r)
+        if scn['mode'] == 'rec' and r not in scn['removes'] and rng.random() < 0.15:
+            scn['rekeys'].append([r, rng.choice(['abs', 'dot', 'dotdot'])])
     if scn['mode'] == 'rec':
         for j in range(rng.choice([0, 0, 1, 1, 2])):
             suffix = rng.choice([f'n{j}.bean', f'newdir/n{j}.bean', f'inc/n{j}.bean', f'new/deep/n{j}.bean'])
@@ -224,7 +274,7 @@ def gen_scenario(rng, force: dict | None = None) -> dict:
 
 
 def corpus() -> list[dict]:
-    base = {'dirs': ['', 'inc', 'inc/deep'], 'edits': {}, 'removes': [], 'adds': [], 'raise': None, 'mode': 'rec',
+    base = {'dirs': ['', 'inc', 'inc/deep'], 'edits': {}, 'removes': [], 'adds': [], 'rekeys': [], 'raise': None, 'mode': 'rec',
             'cwd': '.', 'root': '{D}/main.bean', 'spelling': 'abs'}
     out = []
 
@@ -252,6 +302,20 @@ def corpus() -> list[dict]:
     mk(fs, incs, edits={'a.bean': 'account'}, removes=['inc/d.bean'], **{'raise': 'after'})
     mk(fs, incs, edits={'a.bean': 'account'}, removes=['a.bean'.replace('a', 'b')], adds=[['n0.bean', '; created\n']],
        cwd='.', root='./main.bean', spelling='bare')
+    # re-keying: entries removed and re-added under another spelling of the same file
+    mk(fs, incs, edits={'a.bean': 'account'}, rekeys=[['a.bean', 'abs'], ['inc/d.bean', 'dot'], ['main.bean', 'dotdot']],
+       cwd='.', root='main.bean', spelling='bare')
+    mk(fs, incs, rekeys=[['inc/c.bean', 'abs'], ['b.bean', 'dotdot']], cwd='..', root='{N}/main.bean', spelling='rel')
+    # directories with glob magic in their names
+    o = '2000-01-01 open Assets:F%d:Acct\n'
+    mg = {MAIN: 'include "x[[]ab]/g.bean"\ninclude "led[[]2020]/i.bean"\ninclude "st[*]r/k.bean"\ninclude "q[?]/l.bean"\n' + o % 0,
+          'x[ab]/g.bean': 'include "h.bean"\n' + o % 1, 'x[ab]/h.bean': o % 2, 'xa/h.bean': o % 3,
+          'led[2020]/i.bean': 'include "*.bean"\n' + o % 4, 'led[2020]/j.bean': o % 5,
+          'st*r/k.bean': 'include "./k.bean"\n' + o % 6, 'star/k.bean': o % 7,
+          'q?/l.bean': 'include "../q[?]/l.bean"\n' + o % 8, 'qz/l.bean': o % 9}
+    mi = {MAIN: ['x[[]ab]/g.bean', 'led[[]2020]/i.bean', 'st[*]r/k.bean', 'q[?]/l.bean'], 'x[ab]/g.bean': ['h.bean'],
+          'led[2020]/i.bean': ['*.bean'], 'st*r/k.bean': ['./k.bean'], 'q?/l.bean': ['../q[?]/l.bean']}
+    mk(mg, mi, edits={'x[ab]/h.bean': 'account', 'st*r/k.bean': 'account'})
     return out
 
 
@@ -416,6 +480,16 @@ def execute(ctx, scn: dict) -> dict:
     return obs
 
 
+def respell(k: str, style: str) -> str:
+    """Another spelling of the same file."""
+    if style == 'abs':
+        return os.path.relpath(k) if os.path.isabs(k) else os.path.abspath(k)
+    if style == 'dot':
+        return os.path.join(os.path.dirname(k), '.', os.path.basename(k)) if os.path.dirname(k) else './' + k
+    parent = os.path.basename(os.path.dirname(os.path.abspath(k)))
+    return os.path.join(os.path.dirname(k), '..', parent, os.path.basename(k))
+
+
 def _body(scn, files, D, models, parser):
     """The body of the `with` block: edits / removals / additions chosen by the scenario."""
     if scn['raise'] == 'before':
@@ -436,6 +510,10 @@ def _body(scn, files, D, models, parser):
     for rel in scn['removes']:
         if rel in by_rel:
             del files[by_rel[rel]]
+    for rel, style in scn.get('rekeys', []):
+        if rel in by_rel and by_rel[rel] in files:
+            k = by_rel[rel]
+            files[respell(k, style)] = files.pop(k)
     first = next(iter(by_rel.values()), None) if MAIN not in by_rel else by_rel[MAIN]
     for suffix, text in scn['adds']:
         key = os.path.join(os.path.dirname(first), suffix)
@@ -472,11 +550,15 @@ def reachable(scn, D: str) -> tuple[set[str], bool]:
             bad = True
             continue
         for pat in scn['incs'].get(rel, []):
-            ms = glob_mod.glob(os.path.join(os.path.dirname(f), pat), recursive=True)
+            ms = glob_mod.glob(os.path.join(glob_mod.escape(os.path.dirname(f)), pat), recursive=True)
             if not ms:
                 bad = True
             todo.extend(os.path.normpath(m) for m in ms)
     return seen, bad
+
+
+UNESCAPED = ('_get_include_paths passes dirname(path) unescaped to glob.glob: in a directory whose name contains '
+             '[ ] * ? an include matches nothing or matches files of a look-alike directory')
 
 
 def monitors(scn, obs, reach: tuple[set[str], bool]) -> list[tuple[str, str]]:
@@ -489,6 +571,8 @@ def monitors(scn, obs, reach: tuple[set[str], bool]) -> list[tuple[str, str]]:
     def untouched(rel) -> bool:
         return rel in after and after[rel] == before[rel] and os.path.join(D, rel) not in written
 
+    magic_dirs = sorted({os.path.dirname(os.path.relpath(p, D)) for p in reach[0]
+                         if MAGIC & set(os.path.dirname(os.path.relpath(p, D)))})
     if isinstance(exc, CallLimit):
         return [('C16:does-not-terminate', f'more than {MAX_CALLS} file-system calls on a tree of {len(before)} files: '
                                            'the traversal of the include graph does not terminate')]
@@ -503,7 +587,10 @@ def monitors(scn, obs, reach: tuple[set[str], bool]) -> list[tuple[str, str]]:
                 fails.append(('C16:raise-touched', f'the block raised but {rel} was created, changed or rewritten'))
                 break
         if obs['stage'] == 'enter' and scn['mode'] == 'rec' and not reach[1]:
-            fails.append(('C16:enter-raised', f'edit_file_recursive raised {type(exc).__name__} on a well-formed include graph'))
+            if isinstance(exc, ValueError) and magic_dirs:
+                fails.append(('C16:glob-dirname-unescaped', UNESCAPED + f' (here: ValueError, directories {magic_dirs})'))
+            else:
+                fails.append(('C16:enter-raised', f'edit_file_recursive raised {type(exc).__name__} on a well-formed include graph'))
         return fails
     if obs['stage'] == 'exit':
         if isinstance(exc, FileNotFoundError) and any(x[0] == 'makedirs' and x[1] == '' for x in log):
@@ -519,11 +606,15 @@ def monitors(scn, obs, reach: tuple[set[str], bool]) -> list[tuple[str, str]]:
     if scn['mode'] == 'rec':
         want = {os.path.relpath(p, D) for p in reach[0]}
         reads = [os.path.relpath(x[2], D) for x in log if x[0] == 'r' and x[2] and x[2].startswith(D + '/')]
-        if in_map != want or len(keys) != len(want):
+        if in_map != want and len(keys) == len(set(in_map)) and magic_dirs:
+            fails.append(('C16:glob-dirname-unescaped', UNESCAPED + f' (here: visited {sorted(in_map)}, reachable {sorted(want)})'))
+        elif in_map != want or len(keys) != len(want):
             fails.append(('C16:visit-once', f'yielded keys {sorted(keys)} but the files reachable through includes are {sorted(want)}'))
         elif sorted(reads) != sorted(want) or len(obs['parses']) != len(want):
             fails.append(('C16:visit-once', f'files opened {sorted(reads)} / {len(obs["parses"])} parses for {len(want)} reachable files'))
     removed = {r for r in scn['removes'] if r in in_map}
+    rekeyed = {r for r, _ in scn.get('rekeys', []) if r in in_map and r not in removed} if scn['mode'] == 'rec' else set()
+    reported: set[str] = set()
     first_key = next((k for k in keys if os.path.abspath(os.path.join(obs['cwd'], k)) == os.path.join(D, MAIN)), keys[0])
     added = {}
     if scn['mode'] == 'rec':
@@ -537,12 +628,19 @@ def monitors(scn, obs, reach: tuple[set[str], bool]) -> list[tuple[str, str]]:
                 fails.append(('C16:removed-not-deleted', f'{rel} was removed from the mapping but still exists'))
             continue
         want = expected_edit(scn, rel, data) if rel in in_map else data
-        if want == data:
+        if rel in rekeyed and rel not in after:
+            reported.add(rel)
+            fails.append(('C16:rekeyed-entry-lost',
+                          f'{rel}: its key was replaced inside the block by another spelling of the same path; the entry '
+                          'is in the final mapping but the file no longer exists (it was written and then unlinked)'))
+            continue
+        if want == data and rel not in rekeyed:
             if not untouched(rel):
                 fails.append(('C16:unchanged-rewritten', f'{rel}: model not changed, but the file was rewritten or changed'))
             continue
         got = after.get(rel, (None,))[0]
         if got != want:
+            reported.add(rel)
             if got is not None and got == want.replace(b'\r\n', b'\n') and b'\r' in want:
                 fails.append(('C16:crlf-rewritten',
                               f'{rel}: one token was edited and every "\\r\\n" of the file became "\\n" '
@@ -551,9 +649,20 @@ def monitors(scn, obs, reach: tuple[set[str], bool]) -> list[tuple[str, str]]:
                 fails.append(('C16:changed-not-exact', f'{rel}: expected {want!r}, file contains {got!r}'))
     for rel, data in added.items():
         if after.get(rel, (None,))[0] != data:
+            reported.add(rel)
             fails.append(('C16:added-not-created', f'new entry {rel}: expected {data!r}, found {after.get(rel, (None,))[0]!r}'))
     for rel in sorted(set(after) - set(before) - set(added)):
         fails.append(('C16:other-file-touched', f'{rel} was created'))
+    # every file named by the final mapping (whatever the spelling of its key) exists and holds the printed model
+    for k, printed in obs['body_out'] or []:
+        rel = os.path.relpath(os.path.abspath(os.path.join(obs['cwd'], k)), D)
+        got = after.get(rel, (None,))[0]
+        if rel in reported or got == printed.encode('ascii'):
+            continue
+        if got is not None and got.replace(b'\r\n', b'\n') == printed.encode('ascii'):
+            continue        # unchanged CRLF file seen through newline translation: C16:crlf-rewritten covers the edits
+        fails.append(('C16:mapping-entry-not-on-disk', f'key {k!r} is in the final mapping; its file holds {got!r}, '
+                                                       f'the printed model is {printed!r}'))
     return fails
 
 
@@ -617,9 +726,9 @@ def coq_case(cfg, scn, obs) -> str:
             continue
         pseen.add(p)
         pl.append(pair(S(p), f'({S(os.path.normpath(p))}, {S(os.path.dirname(p))}, {S(str(pathlib.PurePosixPath(p)))}, '
-                             f'{S(os.path.normpath(os.path.join(cwd, p)))})'))
+                             f'({S(os.path.normpath(os.path.join(cwd, p)))}, {S(glob_mod.escape(p))}))'))
     return ('(mkcase ' + ' '.join([
-        common.coq_bool(cfg[0]), common.coq_bool(cfg[1]), S(cwd), files0, L(S(d) for d in obs['dirs0']),
+        common.coq_bool(cfg[0]), common.coq_bool(cfg[1]), common.coq_bool(cfg[2]), S(cwd), files0, L(S(d) for d in obs['dirs0']),
         L(incl), L(unp), L(globs), '1' if scn['mode'] == 'rec' else '0', S(obs['root']), body,
         str(res_code(obs)), keys, L(trace), final, L(pl)]) + ')')
 
@@ -669,9 +778,11 @@ def all_scenarios(ctx, n: int) -> list[dict]:
 def run(ctx: common.Ctx):
     ctx.rule = ('hand-written corpus (bare path, CRLF, cycle+diamond+glob) then seeded scenarios: 1-7 files in up to 5 '
                 'directories, 0-3 include directives per file (relative paths with ./ and ../, globs incl. **, '
-                'self/cyclic/shared includes, rarely unmatched), LF / CRLF / mixed line ends, 13 root spellings '
+                'self/cyclic/shared includes, rarely unmatched; 30% of the trees have directories named with [ ] * ? next to '
+                'look-alike siblings), LF / CRLF / mixed line ends, 13 root spellings '
                 '(bare, relative, absolute, redundant separators, .. components; cwd = tree, its parent, a subdirectory), '
-                'body = random subsets edited (one token) / removed / added, raising before or after its edits; '
+                'body = random subsets edited (one token) / removed / added / re-keyed to another spelling of the same file '
+                '(abspath, ./, ../dir/), raising before or after its edits; '
                 'non-trivial = >= 2 files or an edit or a raise; distinct by the whole scenario')
     ctx.assumptions += [
         'Section variables of Editor.v (no law assumed in the model): parse/print/includes (lark parser, printer), '
@@ -680,9 +791,16 @@ def run(ctx: common.Ctx):
         'are tables recorded from the real functions',
         'Section hypotheses of EditorProofs.v: print_parse (C01: print (parse t) = t), canon_ppath '
         '(abspath(str(Path(p))) = abspath(p)), canon_normpath (abspath(normpath(p)) = abspath(p))',
-        'per-theorem hypotheses: distinct keys of the mapping denote distinct files (NoDup (map canon keys): no '
-        'symlinks/hard links, no mixing of spellings of one file inside one include graph); the body does not '
-        'touch the file system itself; glob results do not change while the read phase runs',
+        'per-theorem hypotheses: "distinct keys denote distinct files" (alias_free = NoDup (map canon (removed ++ kept '
+        'keys))) is needed for unchanged_not_written / removed_unlinked / nothing_else_touched, i.e. no symlinks or '
+        'hard links and no two spellings of one file among the keys the read phase produced; it is NOT needed between '
+        'a removed key and a new key: re-keying an entry to another spelling of the same path (abspath, ./x, d/../d/x) '
+        'is covered by C16_rekeyed_entry_survives, which only needs the kept keys to denote distinct files and follows '
+        'from the order "all unlinks, then all writes" (C16_completed_trace); the body does not touch the file system '
+        'itself; glob results do not change while the read phase runs',
+        'glob as an oracle: the table maps the (normalised) pattern string the code built to what glob.glob returned; '
+        'that this is "the files the include directive names" relies on the directory part being glob.escape()d '
+        '(w_escape, read from the source); the visit-once monitor computes reachability with an escaped directory',
         'POSIX: os.linesep = "\\n" (text-mode writes do not translate), paths are posixpath',
         'not modelled: encodings (contents are ASCII), partial writes, concurrent writers, permissions, '
         'intermediate directories created by makedirs',
@@ -690,18 +808,20 @@ def run(ctx: common.Ctx):
     ctx.require_coq(['properties/C16'], extra_targets=['EditorRun'])
     cfg = source_config(ctx)
     if cfg is None:
-        cfg = (True, False)
-    ctx.notes.append(f'editor.py: universal-newline translation on read = {cfg[0]}, makedirs guarded = {cfg[1]}')
-    if cfg != (False, True):
+        cfg = (True, False, False)
+    ctx.notes.append(f'editor.py: universal-newline translation on read = {cfg[0]}, makedirs guarded = {cfg[1]}, '
+                     f'include directory glob-escaped = {cfg[2]}')
+    if cfg != (False, True, True):
         ctx.fail('tie', 'C16:config',
-                 'C16_changed_exact_bytes needs files opened with newline=\'\' and C16_exit_ok needs os.makedirs '
-                 f'guarded against dirname == \'\'; editor.py has translate={cfg[0]}, guard={cfg[1]} '
-                 '(see C16_crlf_refuted / C16_bare_path_refuted)')
+                 'C16_every_entry_printed_exactly needs files opened with newline=\'\', a bare root needs os.makedirs '
+                 'guarded against dirname == \'\' (C16_crlf_refuted / C16_bare_path_refuted), and the glob oracle is '
+                 'the include relation only when the directory part of the pattern is glob.escape()d; editor.py has '
+                 f'translate={cfg[0]}, guard={cfg[1]}, escape={cfg[2]}')
     run_scenarios(ctx, cfg, all_scenarios(ctx, ctx.scale(220, 2500)))
 
 
 def search(ctx: common.Ctx):
-    cfg = source_config(ctx) or (True, False)
+    cfg = source_config(ctx) or (True, False, False)
     run_scenarios(ctx, cfg, [gen_scenario(ctx.rng) for _ in range(ctx.scale(120, 600))])
 
 
@@ -712,7 +832,7 @@ def replay(ctx, path):
     if not scn:
         print(json.dumps(f, indent=1))
         return 1
-    cfg = source_config(ctx) or (True, False)
+    cfg = source_config(ctx) or (True, False, False)
     obs = execute(ctx, scn)
     fails = monitors(scn, obs, obs['reach'])
     for sig, what in fails:
